@@ -726,6 +726,25 @@ kani::stub_set!(recover_stubs,
     stub(alloc::fmt::format, crate::verif_env::stub_format),
 );
 
+/// EmbeddedWal's fields are private to io::wal: find the word that `stats()` reports as region size
+/// (which = 0) or pending bytes (which = 1) by probing the zeroed handle, and set it. Straight-line.
+fn set_wal_stat(w: &mut EmbeddedWal, which: u8, value: u64) {
+    const MARK: u64 = 0x5A5A_0000_0000_0001;
+    let n = core::mem::size_of::<EmbeddedWal>() / 8;
+    let base = w as *mut EmbeddedWal as *mut u64;
+    let mut done = false;
+    unrolled_128!(n, k => {
+        if !done {
+            let old = unsafe { *base.add(k) };
+            unsafe { *base.add(k) = MARK; }
+            let st = w.stats();
+            let hit = if which == 0 { st.region_size == MARK } else { st.pending_bytes == MARK };
+            unsafe { *base.add(k) = if hit { value } else { old }; }
+            if hit { done = true; }
+        }
+    });
+    assert!(done, "[env] could not locate the EmbeddedWal field");
+}
 fn recover_setup(n_pending: u64, frames0: usize, seq0: u64) -> Memvid {
     let mut toc = crate::memvid::lifecycle::empty_toc();
     let mut i = 0;
@@ -735,6 +754,20 @@ fn recover_setup(n_pending: u64, frames0: usize, seq0: u64) -> Memvid {
     }
     let mut mv = mk_memvid(toc, mk_header(65536));
     mv.header.wal_sequence = seq0;
+    // the log's geometry and the header's checkpoint position are arbitrary well-formed values
+    // (a log that wrapped has checkpoint_pos + pending_bytes > region_size): recovery must not
+    // depend on them, only on the records the log hands out
+    let rs: u64 = kani::any();
+    let wh: u64 = kani::any();
+    let pb: u64 = kani::any();
+    kani::assume(rs >= 65536 && rs <= 1 << 26 && wh <= rs && pb <= wh && (n_pending == 0 || pb > 0));
+    let _ = wh;
+    set_wal_stat(&mut mv.wal, 0, rs);
+    set_wal_stat(&mut mv.wal, 1, pb);
+    mv.header.wal_size = rs;
+    let cp: u64 = kani::any();
+    kani::assume(cp < rs);
+    mv.header.wal_checkpoint_pos = cp;
     unsafe {
         W_SEQ0 = seq0;
         W_N = n_pending;
